@@ -34,7 +34,7 @@ P = {
              "and in float64 (object and NumPy).",
         ref="DESIGN.md section 2, C02"),
     "C03": dict(
-        technique="differential property-based testing across backends: element i of NumPy/Awkward results vs the object backend on identical float64 inputs, generated layouts and backend pairings",
+        technique="differential property-based testing across backends: element i of NumPy/Awkward results (methods and the operator spellings + - * /) vs the object backend on identical float64 (and int64-stored) inputs, generated layouts and backend pairings",
         text="Exploration over operations x systems x flavors x layouts x backend pairings with generated element lists.",
         ref="DESIGN.md section 2, C03"),
     "C04": dict(
@@ -43,7 +43,7 @@ P = {
              "pass-through are checked bit-for-bit, round trips at 1e-40 (mp) / 1e-9 (float64).",
         ref="DESIGN.md section 2, C04"),
     "C05": dict(
-        technique="exhaustive enumeration of the (method x signature x flavor x backend pairing x dimension pairing) lattice against a rule table written from the statement",
+        technique="exhaustive enumeration of the (method x signature x flavor x backend pairing x dimension pairing) lattice, of every conversion/projection/like() per backend kind, and of every operator vs its method, against a rule table written from the statement",
         text="Exploration with a finite lattice enumerated completely (exhaustive over configurations, two generated value sets per point).",
         ref="DESIGN.md section 2, C05"),
     "C06": dict(
@@ -103,7 +103,7 @@ P = {
         text="Exploration over generated shapes up to rank 3 and index expressions in all 20 systems x 2 flavors.",
         ref="DESIGN.md section 2, C19"),
     "C20": dict(
-        technique="stateful property testing of global-state invariants over generated call histories under generated prior configurations; generated thread schedules vs sequential execution",
+        technique="stateful property testing of global-state invariants over generated call histories under generated prior configurations; re-evaluation of every call afterwards and in a fresh interpreter (purity); generated thread schedules vs sequential execution with process-wide state compared around every threaded phase",
         text="Exploration. The history/leak part is decided on everything generated; 'for all interleavings' is explored "
              "(many partitions, tiny switch interval), not decided - the harness does not own the interpreter's scheduler.",
         ref="DESIGN.md section 2, C20"),
